@@ -14,7 +14,7 @@ RULE = ("breadth-first exploration of ALL histories up to the depth bound over a
         "bar-by-bar, detokenise) on a workspace (sequence A, sequence B, token list); invariant on every state: every time "
         "value in both views of A and B is of type int and every tick-carrying token renders an integer; "
         "non-trivial = the transition pads a bar, splits with a remainder, splits into bars or builds a composition")
-SCALE = ('two long seeds (14 and 16 bars with rests of 10 and 11 bars beside tracks of 2-3 bars) explored to depth 2; split into 14 x 36 and 12 x 96 equal parts re-joined by concatenation; scale(1); detokenising hand-edited streams with a signature token behind a rest / in front of a bar token / behind a bar token')
+SCALE = ('tokenisers of odd resolution (45, 15) with odd-numerator signatures, x/64 and x/128 signatures in bar splitting and Bar(...); two long seeds (14 and 16 bars with rests of 10 and 11 bars beside tracks of 2-3 bars) explored to depth 2; split into 14 x 36 and 12 x 96 equal parts re-joined by concatenation; scale(1); detokenising hand-edited streams with a signature token behind a rest / in front of a bar token / behind a bar token')
 ASSUMPTIONS = ["bool and numpy integer types do not count as 'integer type' for ticks"]
 REQUIRED_FLAGS = ["bar_padded", "split_with_remainder", "tokens_checked", "detokenised", "bars_split", "composition_built",
                   "scaled", "wrapped_transpose", "split_many_equal_parts", "detokenised_edited_stream"]
@@ -23,10 +23,15 @@ TOKEN_RE = re.compile(r"^[a-z]+(_\d+)*(-[a-z]+(_\d+)+)*$")
 _TOK = {}
 
 
-def tok():
-    if "t" not in _TOK:
-        _TOK["t"] = Tok(num_tracks=2, velocity_bins=1)
-    return _TOK["t"]
+# seeds 8 and 9 work with a tokeniser of odd resolution (bar capacities ppqn * n / 2 are then no whole numbers for odd n)
+TOK_PPQN = {8: 45, 9: 15}
+
+
+def tok(w=None):
+    ppqn = w[3] if w is not None and len(w) > 3 else None
+    if ppqn not in _TOK:
+        _TOK[ppqn] = Tok(num_tracks=2, velocity_bins=1) if ppqn is None else Tok(num_tracks=2, velocity_bins=1, ppqn=ppqn)
+    return _TOK[ppqn]
 
 
 def make_seed(i, p):
@@ -48,6 +53,15 @@ def make_seed(i, p):
     if i == 7:   # scale: 3/4, sixteen bars, forty notes, a rest of eleven bars; second track three bars, relative build
         ns = [(6 * k, 5, p + k % 5, k % 2, 30 + k) for k in range(20)] + [(1000 + 7 * k, 6, p + k % 5, k % 2, 60 + k) for k in range(20)]
         return [lib.seq_rel(ns, [("ts", 0, 3, 4)], 1152), lib.seq_rel([(0, 36, p + 1, 0, 64), (150, 12, p + 3, 0, 9)], [], None), []]
+    if i == 8:   # 5/8 (tokeniser resolution 45: capacity 112.5), two bars
+        return [lib.seq_abs([(0, 12, p, 0, 64), (120, 12, p + 2, 0, 64)], [("ts", 0, 5, 8)], 224),
+                lib.seq_abs([(0, 6, p + 7, 0, 70)], [], 30), []]
+    if i == 9:   # 7/8 (tokeniser resolution 15: capacity 52.5), relative build
+        return [lib.seq_rel([(6, 6, p, 0, 64), (84, 12, p + 1, 0, 9)], [("ts", 0, 7, 8)], 168), Sequence(), []]
+    if i == 10:  # fine denominators: 5/64 (7.5 ticks), then 6/64 (9 ticks), then 3/128 (2.25 ticks)
+        return [lib.seq_abs([(0, 6, p, 0, 64), (14, 12, p + 2, 0, 64), (40, 3, p + 4, 0, 64)],
+                            [("ts", 0, 5, 64), ("ts", 14, 6, 64), ("ts", 41, 3, 128)], 48),
+                lib.seq_abs([(0, 6, p + 7, 0, 70)], [], 20), []]
     # 7/8 then 5/16, ticks in the hundreds, unequal lengths
     return [lib.seq_abs([(0, 36, p, 0, 64), (90, 6, p + 2, 0, 64)], [("ts", 0, 7, 8), ("ts", 84, 5, 16)], 120),
             lib.seq_rel([(300, 12, p + 3, 0, 64)], [], None), []]
@@ -100,7 +114,7 @@ def _comp(w):
 
 
 def _tok_whole(w):
-    w[2] = tok().tokenise([w[0], w[1]])
+    w[2] = tok(w).tokenise([w[0], w[1]])
     return "tokens_checked"
 
 
@@ -108,7 +122,7 @@ def _tok_bars(w):
     bars = Sequence.sequences_split_bars([w[0], w[1]], 0)
     sd, out = {}, []
     for k in range(len(bars[0])):
-        out += tok().tokenise([bars[0][k].sequence, bars[1][k].sequence], state_dict=sd)
+        out += tok(w).tokenise([bars[0][k].sequence, bars[1][k].sequence], state_dict=sd)
     w[2] = out
     return "tokens_checked"
 
@@ -116,9 +130,20 @@ def _tok_bars(w):
 def _detok(w):
     if not w[2]:
         raise ValueError("no tokens")
-    s = tok().detokenise(w[2])
+    s = tok(w).detokenise(w[2])
     w[0], w[1] = s[0], s[1]
     return "detokenised"
+
+
+def _stream(w):
+    """a stream as a model would emit it, written by hand from the tokeniser's own vocabulary: odd and even signatures,
+    bars that are under-full, exactly full and closed at once"""
+    d = tok(w).dictionary
+    n0 = next(t for t in d if t.startswith("trk_00-"))
+    n1 = next(t for t in d if t.startswith("trk_01-"))
+    w[2] = ["tsg_03_08", "rst_06", n0, "bar", n1, "rst_24", "bar", "tsg_05_08", n0, "rst_12", "bar", "bar", "tsg_04_08", n1, "rst_04",
+            "bar", "tsg_07_08", "rst_24", n0, "bar", n1]
+    return "tokens_checked"
 
 
 def _detok_edited(where):
@@ -128,7 +153,7 @@ def _detok_edited(where):
         if not w[2]:
             raise ValueError("no tokens")
         toks = list(w[2])
-        sig = next(t for t in tok().dictionary if t.startswith("tsg_") and t not in toks[:3])
+        sig = next(t for t in tok(w).dictionary if t.startswith("tsg_") and t not in toks[:3])
         if where == "behind_rest":
             k = next((i for i, t in enumerate(toks) if t.startswith("rst_")), None)
         elif where == "before_bar":
@@ -139,7 +164,7 @@ def _detok_edited(where):
         if k is None:
             raise ValueError("no place")
         toks.insert(k + 1, sig)
-        s = tok().detokenise(toks)
+        s = tok(w).detokenise(toks)
         w[0], w[1], w[2] = s[0], s[1], toks
         return "detokenised_edited_stream"
     return f
@@ -189,6 +214,8 @@ UNARY = {
     "bar22": _barsig(2, 2),
     "bar78": _barsig(7, 8),
     "bar516": _barsig(5, 16),
+    "bar564": _barsig(5, 64),
+    "bar664": _barsig(6, 64),
 }
 BINARY = {
     "copyA_to_B": lambda w: w.__setitem__(1, w[0].copy()),
@@ -201,6 +228,7 @@ BINARY = {
     "tokenise": _tok_whole,
     "tokenise_bars": _tok_bars,
     "detokenise": _detok,
+    "handwritten_stream": _stream,
     "detok_sig_behind_rest": _detok_edited("behind_rest"),
     "detok_sig_before_bar": _detok_edited("before_bar"),
     "detok_sig_behind_bar": _detok_edited("behind_bar"),
@@ -211,12 +239,12 @@ OPNAMES = [f"{n}:{i}" for n in UNARY for i in (0, 1)] + list(BINARY)
 def context(tier, seed):
     depth = 3 if tier == "quick" else 4
     return {"p": [60, 40, 90][seed % 3], "depth": depth, "tier": tier,
-            "bounds": {"depth": depth, "operations": OPNAMES, "seeds": 8,
+            "bounds": {"depth": depth, "operations": OPNAMES, "seeds": 11,
                        "long_seeds": "seeds 6 and 7 (14-16 bars, rests of 10-11 bars) are explored to depth 2"}}
 
 
 def seeds(ctx):
-    return 8
+    return 11
 
 
 def apply(w, name):
@@ -228,6 +256,7 @@ def apply(w, name):
 
 def build(seed_i, hist, ctx):
     w = make_seed(seed_i, ctx["p"])
+    w.append(TOK_PPQN.get(seed_i))
     for h in hist:
         apply(w, h)
     return w
@@ -242,11 +271,11 @@ def key_of(w, ctx):
             if view is not None:
                 for m in view._messages:
                     alias.append(ids.setdefault(id(m), len(ids)))
-    return hash((lib.raw_repr(w[0]), lib.raw_repr(w[1]), tuple(w[2]), tuple(alias)))
+    return hash((lib.raw_repr(w[0]), lib.raw_repr(w[1]), tuple(w[2]), tuple(alias), w[3] if len(w) > 3 else None))
 
 
 def enabled(w, seed_i, hist, ctx):
-    if seed_i >= 6 and len(hist) >= 2:
+    if seed_i in (6, 7) and len(hist) >= 2:
         return []
     return OPNAMES
 
